@@ -81,6 +81,13 @@ class Run:
         if not cond:
             raise AnalysisError(msg)
 
+    def defer(self, msg):
+        """an analysis error in one rule that does not stop the others: the run ends as ANALYSIS-ERROR (exit 2) unless another rule
+        establishes a violation (then the violation is the verdict and the unread part is listed with the assumptions)"""
+        if not hasattr(self, 'deferred'):
+            self.deferred = []
+        self.deferred.append(msg)
+
     def minimum(self, oid, n, what=''):
         """instance count floor confirmed by hand: below it the rule would pass vacuously"""
         have = len(self.obligations[oid].instances) if oid in self.obligations else 0
@@ -98,6 +105,12 @@ class Run:
 
     # ------------------------------------------------------------------ output
     def finish(self):
+        dfr = getattr(self, 'deferred', [])
+        if dfr and not self.violations:
+            raise AnalysisError(dfr[0] + (f' (+{len(dfr) - 1} more)' if len(dfr) > 1 else ''))
+        for m_ in dfr:
+            print(f'ANALYSIS-ERROR property={self.prop} {m_}')
+            self.assumptions.append(f'not analysed: {m_}')
         wall = time.time() - self.t0
         os.makedirs(self.evidence_dir, exist_ok=True)
         replay_dir = os.path.join(self.evidence_dir, 'replay')
